@@ -21,6 +21,7 @@ import (
 	"strconv"
 	"strings"
 	"sync"
+	"sync/atomic"
 	"testing/synctest"
 	"time"
 
@@ -34,12 +35,13 @@ const batchDelay = 10 * time.Millisecond
 type Need int
 
 const (
-	NeedNone      Need = iota
-	NeedWriter         // would take reloadLock.RLock and then the bbolt writer lock
-	NeedRLock          // would take reloadLock.RLock
-	NeedNoReader       // reloadLock.Lock: needs readers == 0
-	NeedNever          // parked until the run is unwound (used by the stall fault)
-	NeedExclusive      // close / reopen of the database: no transaction of any kind open
+	NeedNone       Need = iota
+	NeedWriter          // would take reloadLock.RLock and then the bbolt writer lock
+	NeedRLock           // would take reloadLock.RLock
+	NeedNoReader        // reloadLock.Lock: needs readers == 0
+	NeedNever           // parked until the run is unwound (used by the stall fault)
+	NeedExclusive       // close / reopen of the database: no transaction of any kind open
+	NeedBoltWriter      // only the bbolt writer lock (the caller already holds reloadLock.RLock): Batch solo re-run
 )
 
 const ClockChoice = "<clock>"
@@ -64,10 +66,11 @@ type Sched struct {
 	pos    int
 	Trace  []string
 
-	Steps    int
-	MaxSteps int
-	abort    bool
-	Outcome  string // "", "deadlock: ...", "budget"
+	Steps     int
+	MaxSteps  int
+	abort     bool
+	abortFlag atomic.Bool
+	Outcome   string // "", "deadlock: ...", "budget"
 
 	// lock model
 	mainPath     string
@@ -85,14 +88,16 @@ type Sched struct {
 	lastT  string
 
 	// callbacks into the run
-	onQuiescent  func()             // scheduler goroutine, everything parked
-	onRw         func(ev string)    // main db writer lock notifications: acquired | committed | released
-	onRestore    func(point string) // reload.lock.after / reload.unlock.after on the main db
-	onSeam       func(site string, key []byte) error
-	raceWindow   func(enabled []string) []string // conc profile: optional set release
-	ClockSleeps  int
-	NestedRLockP int // probe: RLock requested while a restore was pending or held
-	harnessErr   string
+	onQuiescent   func()             // scheduler goroutine, everything parked
+	onRw          func(ev string)    // main db writer lock notifications: acquired | committed | released
+	onRestore     func(point string) // reload.lock.after / reload.unlock.after on the main db
+	onSeam        func(site string, key []byte) error
+	Windows       bool // conc profile: sometimes release a set of tasks at once, for one step each (race windows)
+	WindowsOpened int
+	ClockSleeps   int
+	NestedRLockP  int // probe: RLock requested while a restore was pending or held
+	RestoreWaited int // probe: restore had to wait for open transactions
+	harnessErr    string
 }
 
 func NewSched(seed uint64, replay []string, maxSteps int) *Sched {
@@ -226,10 +231,9 @@ func (s *Sched) parkAs(name, point string, need Need, rename bool) {
 	s.parked[name] = &parkEntry{name: name, point: point, need: need, ch: ch}
 	s.mu.Unlock()
 	<-ch
-	s.mu.Lock()
-	ab := s.abort
-	s.mu.Unlock()
-	if ab {
+	// lock-free: window members must not synchronise with each other before their step (the race detector would
+	// see a happens-before edge and miss races between them)
+	if s.abortFlag.Load() {
 		panic(abortSig{})
 	}
 }
@@ -237,6 +241,7 @@ func (s *Sched) parkAs(name, point string, need Need, rename bool) {
 // Abort unwinds the run: every parked goroutine is woken into a sentinel panic (deferred unlocks / rollbacks run).
 func (s *Sched) Abort(why string) {
 	s.mu.Lock()
+	s.abortFlag.Store(true)
 	if !s.abort {
 		s.abort = true
 		if s.Outcome == "" {
@@ -267,6 +272,8 @@ func (s *Sched) enabledLocked(n Need) bool {
 		return !s.lockPending && !s.lockHeld
 	case NeedNoReader:
 		return s.readers == 0
+	case NeedBoltWriter:
+		return !s.writerHeld
 	case NeedNever:
 		return false
 	case NeedExclusive:
@@ -336,9 +343,24 @@ func (s *Sched) Loop() {
 		}
 		s.Steps++
 		pick := ""
+		var window []string
 		if s.pos < len(s.replay) {
+			// recorded schedule: honoured entry by entry while it applies
 			want := s.replay[s.pos]
 			s.pos++
+			if strings.HasPrefix(want, "win:") {
+				ok := true
+				names := strings.Split(strings.TrimPrefix(want, "win:"), "+")
+				for _, n := range names {
+					e := s.parked[n]
+					if e == nil || !windowEligible(e.point) || !s.enabledLocked(e.need) {
+						ok = false
+					}
+				}
+				if ok && len(names) >= 2 {
+					window, pick = names, want
+				}
+			}
 			for _, e := range enabled {
 				if e == want {
 					pick = e
@@ -346,11 +368,44 @@ func (s *Sched) Loop() {
 			}
 		}
 		if pick == "" {
-			if s.replay != nil {
-				pick = enabled[0] // deterministic fallback: lowest enabled name
-			} else {
+			// free choice from the run's PRNG (also the deterministic fallback where a recorded schedule no longer
+			// applies, e.g. while a plan is being minimised)
+			if s.Windows && s.rng.IntN(3) == 0 {
+				var elig []string
+				for _, n := range enabled {
+					if n != ClockChoice && windowEligible(s.parked[n].point) {
+						elig = append(elig, n)
+					}
+				}
+				if len(elig) >= 2 {
+					k := 2 + s.rng.IntN(min(3, len(elig)-1))
+					s.rng.Shuffle(len(elig), func(i, j int) { elig[i], elig[j] = elig[j], elig[i] })
+					window = append([]string(nil), elig[:k]...)
+					sort.Strings(window)
+					pick = "win:" + strings.Join(window, "+")
+				}
+			}
+			if pick == "" {
 				pick = enabled[s.rng.IntN(len(enabled))]
 			}
+		}
+		if window != nil {
+			s.Trace = append(s.Trace, pick)
+			s.WindowsOpened++
+			var chans []chan struct{}
+			for _, n := range window {
+				e := s.parked[n]
+				delete(s.parked, n)
+				s.mix(n, e.point)
+				chans = append(chans, e.ch)
+			}
+			s.seq++
+			s.mu.Unlock()
+			// released together, no ordering between them: the race detector sees their steps as concurrent
+			for _, ch := range chans {
+				close(ch)
+			}
+			continue
 		}
 		s.Trace = append(s.Trace, pick)
 		if pick == ClockChoice {
@@ -419,6 +474,7 @@ func (s *Sched) SimHook(point string, db *boltz.DbImpl) {
 	case "reload.lock.before":
 		s.lockPending = true
 		if s.readers > 0 {
+			s.RestoreWaited++
 			name, ok := s.goids[goid()]
 			s.mu.Unlock()
 			if !ok {
@@ -480,7 +536,7 @@ func (s *Sched) SeamHook(site string, key []byte) error {
 			s.HarnessError("batch.solo on a goroutine that is not a task")
 			panic(abortSig{})
 		}
-		s.park(name, "batch.solo", NeedWriter)
+		s.park(name, "batch.solo", NeedBoltWriter)
 		return nil
 	}
 	if s.onSeam != nil {
@@ -511,4 +567,14 @@ func (s *Sched) Interleaving() (uint64, bool) {
 	s.mu.Lock()
 	defer s.mu.Unlock()
 	return s.ilHash, s.multi
+}
+
+// windowEligible: steps whose result is schedule-independent by the property itself (inside an already open read
+// or write transaction, or pure helper calls). Begin and commit steps are never released together.
+func windowEligible(point string) bool {
+	switch point {
+	case "view.step", "helper.step", "op":
+		return true
+	}
+	return false
 }
